@@ -38,7 +38,8 @@ let rec upd k f = function
 let ierr_s = function ENoneDeref -> "NoneDeref" | EKeyAbsent -> "KeyAbsent" | EOutOfFuel -> "OutOfFuel"
   | EZeroDiv -> "ZeroDiv" | ENoneState -> "NoneState"
 let exn_s = function XType -> "TypeError" | XValue -> "ValueError" | XKey -> "KeyError"
-  | XIndex -> "IndexError" | XSlotTaken -> "SlotTakenError" | XInternal e -> "Internal:" ^ ierr_s e
+  | XIndex -> "IndexError" | XSlotTaken -> "SlotTakenError" | XUnknownSource -> "UnknownSourceError"
+  | XInternal e -> "Internal:" ^ ierr_s e
 let res_s = function
   | ROk -> "ok"
   | RVal v -> "val " ^ string_of_q v
@@ -321,6 +322,8 @@ let handle toks =
   | ["ssadd"; s; f] -> do_step (OSolsysAdd (ni s, ni f))
   | ["ssrm"; s; f] -> do_step (OSolsysRemove (ni s, ni f))
   | ["ssclear"; s] -> do_step (OSolsysClear (ni s))
+  | ["source"; s; src] when String.length src > 0 && src.[0] = '?' ->
+    do_step (OSource (ni s, Some (ni (string_of_int (100000 + int_of_string (String.sub src 1 (String.length src - 1)))))))
   | ["source"; s; src] -> do_step (OSource (ni s, on src))
   | ["read"; i; a] -> do_step (ORead (ni i, zi a))
   | ["get"; i; a] -> do_step (OGet (ni i, zi a))
